@@ -28,6 +28,11 @@ type fakeHTTP struct {
 	// the filler bytes handed out.
 	endless   bool
 	delivered int64
+	// readEnd: how the body ends. "" = (0, io.EOF) after the last byte;
+	// "eof-with-data" = the last bytes and io.EOF in one Read (as io.Reader
+	// allows); "error" = after the scripted bytes the connection breaks: a
+	// read error instead of an end.
+	readEnd string
 	// started / returned count Do calls entered and left (read by the monitor
 	// while a caller may still be blocked)
 	started, returned int32
@@ -40,15 +45,28 @@ type fakeHTTP struct {
 }
 
 type fakeBody struct {
-	r io.Reader
-	f *fakeHTTP
+	r    io.Reader
+	f    *fakeHTTP
+	left int // scripted bytes not handed out yet
 }
 
 func (b *fakeBody) Read(p []byte) (int, error) {
 	if b.f.chunk > 0 && len(p) > b.f.chunk {
 		p = p[:b.f.chunk]
 	}
-	return b.r.Read(p)
+	n, err := b.r.Read(p)
+	b.left -= n
+	switch b.f.readEnd {
+	case "eof-with-data":
+		if err == nil && b.left <= 0 && !b.f.endless {
+			err = io.EOF
+		}
+	case "error":
+		if err == io.EOF {
+			err = io.ErrUnexpectedEOF
+		}
+	}
+	return n, err
 }
 
 func (b *fakeBody) Close() error {
@@ -114,6 +132,9 @@ func (f *fakeHTTP) Do(req *http.Request) (*http.Response, error) {
 		rd = io.MultiReader(rd, endlessFiller{f})
 		cl, te = -1, []string{"chunked"}
 	}
+	if f.readEnd == "error" && h.Get("Content-Length") == "" {
+		cl, te = -1, []string{"chunked"}
+	}
 	return &http.Response{
 		TransferEncoding: te,
 		Status:           fmt.Sprintf("%d %s", f.status, http.StatusText(f.status)),
@@ -122,7 +143,7 @@ func (f *fakeHTTP) Do(req *http.Request) (*http.Response, error) {
 		ProtoMajor:       1,
 		ProtoMinor:       1,
 		Header:           h,
-		Body:             &fakeBody{r: rd, f: f},
+		Body:             &fakeBody{r: rd, f: f, left: len(f.body)},
 		ContentLength:    cl,
 		Request:          req,
 	}, nil
